@@ -560,6 +560,15 @@ def check(prop, tier, only=None, keep=False, seed=0):
             # bound/model limits first: they make everything after them meaningless
             lim = [f for f in real if f['class'] in ('BOUND', 'MODEL', 'UNWIND')]
             if lim:
+                # the input that leaves the encoded bound may still expose a real failure: replay it natively before giving up
+                for f in (lim + [x for x in real if x not in lim])[:4]:
+                    inp = (f.get('inputs') or '').ljust(2 * o['in'], '0')
+                    rr = run_native_each(os.path.join(d, 'native_real'), ['%s %s' % (o['name'], inp)])
+                    nat = rr[0] if rr else ''
+                    f['native'] = nat
+                    if (' r=' not in nat) or (' r=0 ' in nat + ' '):
+                        res['status'] = 'violation'; res['cex'] = f
+                        return res
                 res['status'] = 'engine_error'
                 res['error'] = 'stated bound / model limit hit: %s (input %s)' % (lim[0]['desc'], lim[0].get('inputs'))
                 res['cex'] = lim[0]
